@@ -4,8 +4,11 @@ package appsup
 
 import (
 	"bytes"
+	"errors"
 	"fmt"
+	"io"
 	"log/slog"
+	"net"
 	"os"
 	"path/filepath"
 	"sort"
@@ -85,12 +88,53 @@ func WaitFor(d time.Duration, f func() bool) bool {
 	}
 }
 
-// LatencyWriter completes each Write after a scripted delay.
+// ReadError returns the error value a real source reports for the named kind of failure: the errno of
+// an unplugged device wrapped the way the os package wraps it, a reset connection, a closed file, ...
+// ("" or an unknown kind: a plain text error).
+func ReadError(kind string) error {
+	switch kind {
+	case "eio":
+		return &os.PathError{Op: "read", Path: "/dev/ttyUSB0", Err: syscall.EIO}
+	case "enodev":
+		return &os.PathError{Op: "read", Path: "/dev/ttyUSB0", Err: syscall.ENODEV}
+	case "enxio":
+		return &os.PathError{Op: "read", Path: "/dev/ttyACM0", Err: syscall.ENXIO}
+	case "reset":
+		return &net.OpError{Op: "read", Net: "tcp", Err: os.NewSyscallError("read", syscall.ECONNRESET)}
+	case "closed":
+		return &os.PathError{Op: "read", Path: "|0", Err: os.ErrClosed}
+	case "unexpected-eof":
+		return io.ErrUnexpectedEOF
+	case "no-progress":
+		return io.ErrNoProgress
+	}
+	return errors.New("read /dev/ttyUSB0: input/output error")
+}
+
+// ReadErrorKinds lists the kinds ReadError knows ("" = plain text).
+var ReadErrorKinds = []string{"", "eio", "enodev", "enxio", "reset", "closed", "unexpected-eof", "no-progress"}
+
+// WriteOnly hides every method of a writer but Write (in particular Close).
+type WriteOnly struct{ W io.Writer }
+
+func (w WriteOnly) Write(p []byte) (int, error) { return w.W.Write(p) }
+
+// LatencyWriter completes each Write after a scripted delay.  It can be closed like a file or a
+// connection: a Write that is still in progress then fails without storing its bytes, and so does every
+// later one.
 type LatencyWriter struct {
 	mu     sync.Mutex
 	buf    []byte
 	Delays []time.Duration // cycled
 	calls  int
+	closed bool
+}
+
+func (w *LatencyWriter) Close() error {
+	w.mu.Lock()
+	w.closed = true
+	w.mu.Unlock()
+	return nil
 }
 
 func (w *LatencyWriter) Write(p []byte) (int, error) {
@@ -104,8 +148,11 @@ func (w *LatencyWriter) Write(p []byte) (int, error) {
 		}
 	}
 	w.mu.Lock()
+	defer w.mu.Unlock()
+	if w.closed {
+		return 0, os.ErrClosed
+	}
 	w.buf = append(w.buf, p...)
-	w.mu.Unlock()
 	return len(p), nil
 }
 
@@ -131,10 +178,18 @@ type GateWriter struct {
 	Blocked chan struct{}
 	Release chan struct{}
 	once    sync.Once
+	closed  chan struct{}
+	cOnce   sync.Once
 }
 
 func NewGateWriter(gateAt int) *GateWriter {
-	return &GateWriter{GateAt: gateAt, Blocked: make(chan struct{}), Release: make(chan struct{})}
+	return &GateWriter{GateAt: gateAt, Blocked: make(chan struct{}), Release: make(chan struct{}), closed: make(chan struct{})}
+}
+
+// Close: like closing a file or a connection - a blocked Write fails, later ones too.
+func (w *GateWriter) Close() error {
+	w.cOnce.Do(func() { close(w.closed) })
+	return nil
 }
 
 func (w *GateWriter) Write(p []byte) (int, error) {
@@ -143,7 +198,15 @@ func (w *GateWriter) Write(p []byte) (int, error) {
 	w.mu.Unlock()
 	if reach {
 		w.once.Do(func() { close(w.Blocked) })
-		<-w.Release
+		select {
+		case <-w.Release:
+		case <-w.closed:
+		}
+	}
+	select {
+	case <-w.closed:
+		return 0, os.ErrClosed
+	default:
 	}
 	w.mu.Lock()
 	w.buf = append(w.buf, p...)
